@@ -42,7 +42,8 @@ def bounds(run):
           "tiers": TIERS[run.tier]}
 
 
-AUDIOS = OrderedDict([("empty", 0), ("one", 2), ("twohalf", 5), ("endless", None)])
+AUDIOS = OrderedDict([("empty", 0), ("one", 2), ("twohalf", 5), ("endless", None), ("monitor", None)])
+# "monitor": the played iterable is the manager's own input, io.record() - endless, frame j holds 500 + j
 
 
 def audio_items(kind, p, channels):
@@ -58,6 +59,8 @@ def expected_items(kind, p, channels, upto=None):
   n = AUDIOS[kind]
   base = 100.0 * (p + 1)
   per = CHUNK * channels
+  if kind == "monitor":
+    return [500.0 + j for j in range(upto)]
   if n is None:
     return [base + j for j in range(upto)]
   n = n * channels
@@ -146,7 +149,22 @@ def _run_schedule(cfg, choices, horizon, stateful, program, wait, use_with, chan
           kw["channels"] = channels
         if default_size:
           del kw["chunk_size"]        # the documented default: chunks.size, as the user set it
-        out.players.append(io.play(audio_items(op[1], p, channels), **kw))
+        audio = io.record(chunk_size=CHUNK) if op[1] == "monitor" else audio_items(op[1], p, channels)
+        out.players.append(io.play(audio, **kw))
+      elif op[0] == "play-fails":
+        # an environment answer: the backend refuses to open the device ("open"), or the caller asks for a
+        # format the device table does not have ("format"); the refused play raises and leaves nothing behind
+        try:
+          if op[1] == "open":
+            registry[0].fail_next_open = True
+            io.play([1.0, 2.0, 3.0], chunk_size=CHUNK)
+          else:
+            io.play([1.0, 2.0, 3.0], chunk_size=CHUNK, dfmt="d")
+          out.notes["play_fails"] = "accepted"
+        except core.Abort:
+          raise
+        except Exception as exc:
+          out.notes["play_fails"] = type(exc).__name__
       elif op[0] == "pause":
         out.players[op[1]].pause()
       elif op[0] == "resume":
@@ -250,10 +268,17 @@ def judge(cfg, out):
   if ev[-1][0] != "terminate":
     return ("terminate-order", "terminate must come after every stream close", None, ev[-6:])
   nplay = sum(1 for op in program if op[0] == "play")
-  if len(pa.all_streams) != nplay:
-    return ("streams-opened", "one device stream per play()", nplay, len(pa.all_streams))
+  outputs = [st for st in pa.all_streams if not st.is_input]
+  if len(outputs) != nplay:
+    return ("streams-opened", "one output device stream per play()", nplay, len(outputs))
+  if any(op[0] == "play-fails" for op in program) and out.notes.get("play_fails") == "accepted":
+    return ("refused-play-accepted", "a play() the backend / format table refuses must raise", "an exception", "accepted")
+  for st in pa.all_streams:
+    if st.is_input and (st.errors or st.closed != 1):
+      return ("input-stream", "every input device stream must be closed exactly once, and never read when closed",
+              {"closed": 1, "errors": []}, {"closed": st.closed, "errors": st.errors})
   per = CHUNK * channels
-  for p, st in enumerate(pa.all_streams):
+  for p, st in enumerate(outputs):
     if st.errors:
       return ("device-protocol", "invalid call on a device stream", None, {"stream": p, "errors": st.errors, "log": st.log[-8:]})
     if st.closed != 1:
@@ -426,7 +451,7 @@ def programs(nplayers, nops, audios, late_play=True):
 def gen_programs(run):
   t = TIERS[run.tier]
   for wait in (False, True):
-    audios = [a for a in AUDIOS if not (wait and a == "endless")]
+    audios = [a for a in AUDIOS if a != "monitor" and not (wait and a == "endless")]
     for use_with in (False, True):
       for prog in programs(1, t["one_player"]["ops"], run.rot(audios)):
         yield ([prog, wait, use_with, 1], t["one_player"]["bound"])
@@ -442,6 +467,18 @@ def gen_programs(run):
     for wait in (False, True):
       yield ([[["play", "one"], ["play", "twohalf"]], wait, False, 1], 2)
       yield ([[["play", "empty"], ["play", "one"]], wait, False, 1], 2)
+  # a play() that fails (device refused by the backend / unknown format) inside a history of good ones
+  for wait in (False, True):
+    for how in ("open", "format"):
+      yield ([[["play-fails", how]], wait, False, 1], 1)
+      yield ([[["play", "one"], ["play-fails", how]], wait, True, 1], 2)
+      yield ([[["play-fails", how], ["play", "twohalf"], ["pause", 0], ["resume", 0]], wait, False, 1], 2)
+  # monitoring: the played iterable is the manager's own recording (endless: wait=False only)
+  for use_with in (False, True):
+    yield ([[["play", "monitor"]], False, use_with, 1], 2)
+    yield ([[["play", "monitor"], ["pause", 0], ["resume", 0]], False, use_with, 1], 2)
+    yield ([[["play", "monitor"], ["stop", 0]], False, use_with, 1], 2)
+  yield ([[["play", "one"], ["play", "monitor"]], False, False, 1], 1)
   # the chunk size taken from chunks.size (changed by the user after import) instead of an argument
   for wait in (False, True):
     yield ([[["play", "twohalf"]], wait, False, "1d"], 1)
